@@ -4,7 +4,7 @@
    Model: Model/BstParser.v (pybtex/bibtex/bst.py, pybtex/scanner.py); printer and the classes of
    programs / layouts the statements speak about: Spec/BstPrint.v. *)
 From Pybtex Require Import Base.Prelude Base.PyChar Base.PyStr Model.BstParser Spec.BstPrint
-  Proofs.BstComment Proofs.BstLex Proofs.BstRoundtrip Proofs.BstErrors Proofs.BstArity.
+  Proofs.BstComment Proofs.BstLex Proofs.BstRoundtrip Proofs.BstErrors Proofs.BstArity Proofs.BstSource.
 
 (* %-comments: strip_comment keeps exactly the part of the line before the first percent sign that
    has an even number of double quotes before it (a percent sign inside a string literal is not a
@@ -66,6 +66,27 @@ Example roundtrip_example :
   layout_okb None example_layout (flat_program example_program) = true /\
   layout_okb None [] (flat_program example_program) = true /\
   parse_text (print_bst example_layout example_program) = Ok example_program.
+Proof. vm_compute. auto. Qed.
+
+(* the full statement, through list(parse_string(src)): printing any well-formed program with ANY
+   source layout -- gaps made of whitespace, %-comments (any text, including quotes, braces and
+   command names, up to a line end) and line ends LF / CRLF / VT / FF / FS / GS / RS / NEL / LS / PS --
+   and parsing it back is the identity.  (src_programb: names contain no percent sign, string
+   literals no line end.  A bare CR line end is covered by the correspondence run only.) *)
+Theorem bst_roundtrip : forall p gs,
+  wf_programb p = true -> src_programb p = true -> slayout_okb None gs (flat_program p) = true ->
+  parse_string (print_bst (map sgap_text gs) p) = Ok p.
+Proof. exact Proofs.BstSource.bst_roundtrip. Qed.
+Print Assumptions bst_roundtrip.
+
+Definition example_slayout : list sgap :=
+  [ [GCom (s2l " header ""quoted"" { ENTRY") (BrChar 10)]; []; [GWs 32]; [GBrk BrCRLF; GWs 9]; [];
+    [GCom (s2l "}") BrCRLF; GBrk (BrChar 10)]; []; []; []; [GWs 160]; []; [GWs 32]; []; [];
+    [GBrk (BrChar 12)]; [GWs 32; GCom [] (BrChar 8232)]; []; [GBrk (BrChar 10)]; [GWs 32; GWs 32] ]%N.
+Example source_roundtrip_example :
+  wf_programb example_program = true /\ src_programb example_program = true /\
+  slayout_okb None example_slayout (flat_program example_program) = true /\
+  parse_string (print_bst (map sgap_text example_slayout) example_program) = Ok example_program.
 Proof. vm_compute. auto. Qed.
 
 (* command names are looked up case-insensitively (ASCII) *)
